@@ -17,6 +17,8 @@ func c01Progs() []func() *LazyProgram {
 	ps := []func() *LazyProgram{
 		func() *LazyProgram { return progThreshold(100) },
 		func() *LazyProgram { return progTwoSites() },
+		func() *LazyProgram { return progSameMessage() },
+		func() *LazyProgram { return progUniqueCtx("action", BPass) },
 		func() *LazyProgram { return progNonFatal(5) },
 		func() *LazyProgram { return progMachine() },
 		func() *LazyProgram { return progCustomCleanup() },
@@ -29,7 +31,7 @@ func c01Progs() []func() *LazyProgram {
 	return ps
 }
 
-var c01Alpha = []Beh{BPass, BSkip, BErrorf, BErrorfSkip, BFatalA, BFatalB, BFailNowC, BPanicStr, BPanicErr, BNilDeref, BCleanupErrorf, BCleanupPanic, BGoErrorf}
+var c01Alpha = []Beh{BPass, BSkip, BErrorf, BErrorfSkip, BFatalA, BFatalB, BFailNowC, BPanicStr, BPanicErr, BNilDeref, BCleanupErrorf, BCleanupPanic, BGoErrorf, BCleanupErrorfSkip, BCleanupSkip, BErrorfReject}
 
 // cutPoints: shrinktime values in virtual ms (= number of shrink-phase invocations allowed).
 func cutPoints(s int, quick bool) []int {
@@ -89,7 +91,11 @@ func c01Oracle(c *Ctx, prog *LazyProgram, log *RunLog, assign []KV, devs int, wh
 	last := env.Invs[len(env.Invs)-1]
 	sig, ok := firstSignal(last)
 	if !ok {
-		viol("presented-case-does-not-falsify prog="+prog.Name, fmt.Sprintf("the final replay ('Failed test output', draws %s) did not signal any failure", last.Draws))
+		cause := "?"
+		if d, ok := firstSignal(first); ok {
+			cause = d.Ctx + ":" + d.Beh.String()
+		}
+		viol("presented-case-does-not-falsify prog="+prog.Name+" found-as="+cause, fmt.Sprintf("the final replay ('Failed test output', draws %s) did not signal any failure", last.Draws))
 		return
 	}
 	if exp := ExpectedText(sig.Beh, drawsOfKey(sig.Key)); exp != "" && !strings.Contains(v.ErrText, exp) {
@@ -133,12 +139,12 @@ func c01Oracle(c *Ctx, prog *LazyProgram, log *RunLog, assign []KV, devs int, wh
 func c01Units(tier string, seed int64) []Unit {
 	quick := tier != "thorough"
 	var units []Unit
-	nseeds := 3
+	nseeds := 2
 	if !quick {
 		nseeds = 16
 	}
 	for pi, mk := range c01Progs() {
-		for _, checks := range []int{1, 3, 10} {
+		for _, checks := range []int{1, 5} {
 			for _, nff := range []bool{true, false} {
 				for s := 0; s < nseeds; s++ {
 					pi, mk, checks, nff := pi, mk, checks, nff
@@ -146,7 +152,7 @@ func c01Units(tier string, seed int64) []Unit {
 					units = append(units, Unit{Name: fmt.Sprintf("C01/prog=%d/checks=%d/nofailfile=%v/seed=%d", pi, checks, nff, sd), Run: func(c *Ctx) {
 						prog := mk()
 						cfg := Config{Checks: checks, Seed: sd, ShrinkMS: -1, NoFailFile: nff, Steps: 6, Name: "TestC01"}
-						d := &LazyDFS{Prog: prog, Cfg: cfg, Alphabet: func(string) []Beh { return c01Alpha }, P: 8, MaxDev: 1, PreRun: CleanFailFiles}
+						d := &LazyDFS{Prog: prog, Cfg: cfg, Alphabet: func(string) []Beh { return c01Alpha }, P: 6, MaxDev: 1, PreRun: CleanFailFiles}
 						if !quick {
 							d.P, d.MaxDev, d.MaxRuns = 24, 2, 30000
 							if checks == 10 {
@@ -198,7 +204,7 @@ func init() {
 		ID:    "C01",
 		Level: "model_checking",
 		Rule: "E2 lazyprop over 11 base programs (threshold, two sites + panic, non-fatal only, Repeat machine, Custom with cleanup, unique inputs, 5 rejection-based generator consumers) x deviations of 13 behaviours on the first P inputs " +
-			"x checks {1,3,10} x nofailfile {0,1} x base seeds; every failing run is repeated with minimization cut after j shrink-phase invocations (virtual clock: 1 ms per invocation, -rapid.shrinktime=j ms). " +
+			"x checks {1,5} x nofailfile {0,1} x base seeds; every failing run is repeated with minimization cut after j shrink-phase invocations (virtual clock: 1 ms per invocation, -rapid.shrinktime=j ms). " +
 			"Oracle: the last invocation (final replay) signals the failure the message names, logged draws = received draws, fail file words replay (buffer stream and MakeFuzz) to the same case; never flaky; no failure without a falsified case. " +
 			"distinct = distinct (class, #invocations, site); non-trivial = a failure was reported.",
 		Assumptions: []string{"cut points are enumerated at the granularity of property invocations: clock readings between two invocations see the same shrinker state"},
